@@ -223,6 +223,47 @@ def flush_guards(fn, env):
     return out, leafs
 
 
+def dynamic_flush_guards(fn, facts):
+    """[(preorder index of the if, callee fn, argument expr)] for `if (m_avail < H(x)) flush_buffer();` with H in the repo."""
+    out = []
+    order = {id(n): i for i, n in enumerate(ir.walk(fn["body"]))}
+    for n in ir.walk(fn["body"]):
+        if n.get("k") != "If" or not any(callee_qn(c) == "CDNS::CdnsEncoder::flush_buffer" for c in ir.calls_in(n.get("then"))):
+            continue
+        c = unwrap(n["cond"])
+        if not (isinstance(c, dict) and c.get("k") == "Bin" and c.get("op") == "<" and path(c["lhs"]) == ("this", "m_avail")):
+            continue
+        r = unwrap_all_casts(c["rhs"])
+        if isinstance(r, dict) and r.get("k") in ("Call", "MCall") and (r.get("callee") or {}).get("inrepo") and len(r.get("args", [])) == 1:
+            cal = r["callee"]
+            cands = [g for g in facts.fns(cal["qn"]) if g["sig"] == cal["sig"] and g.get("targs", "") == cal.get("targs", "")]
+            if len(cands) == 1:
+                out.append((order[id(n)], cands[0], r["args"][0]))
+    return out, order
+
+
+def head_fn_value(hfn, v, facts):
+    from .. import minieval
+    rets = [x for x in ir.walk(hfn["body"]) if x.get("k") == "Return" and x.get("e") is not None]
+    if len(rets) != 1:
+        return None
+    try:
+        return minieval.ev(unwrap(rets[0]["e"]), {"p:%s" % hfn["params"][0]["n"]: v}, facts.enums)
+    except minieval.Unknown:
+        return None
+
+
+def head_fn_points(hfn, lo, hi):
+    pts = set([lo, hi])
+    for b in (0, 23, 24, 255, 256, 65535, 65536, (1 << 32) - 1, 1 << 32, -1, -24, -25, -256, -257, -65536, -65537, -(1 << 32), -(1 << 32) - 1):
+        pts.add(b)
+    for x in ir.walk(hfn["body"]):
+        cv = const_value(x)
+        if isinstance(cv, int) and not isinstance(cv, bool):
+            pts.update((cv - 1, cv, cv + 1))
+    return sorted(p_ for p_ in pts if lo <= p_ <= hi)
+
+
 def arg_max(e, fn):
     """Upper bound of the unsigned value passed to write_int, from source types."""
     u = unwrap(e)
@@ -275,6 +316,7 @@ def check_public_writes(run):
             continue
         env = Env(f["body"])
         fg, leafs = flush_guards(f, env)
+        dyn, dorder = dynamic_flush_guards(f, facts)
         sigs = ",".join(f["sig"])
         fname = "%s(%s)" % (nm, sigs)
         for i, (st, g, loops) in enumerate(leafs):
@@ -289,7 +331,47 @@ def check_public_writes(run):
                 ks = [k for (j, k, lp) in fg if j < i]
                 K = max(ks) if ks else 0
                 key = "%s:write_int(%s)" % (fname, show(c["args"][0]))
-                run.ob("R06.2", key, K >= need, f, c["l"],
+                if K < need and dyn:
+                    # value-dependent threshold `m_avail < H(x)`: tabulate H over the finite set of points where H or the
+                    # RFC head size can change, for the value range of this branch
+                    dd = [d for d in dyn if d[0] < dorder[id(c)]]
+                    verdict = None
+                    msg = ""
+                    if dd:
+                        _, hfn, harg = dd[-1]
+                        a0 = unwrap_all_casts(c["args"][0])
+                        h0 = unwrap_all_casts(harg)
+                        same = show(a0) == show(h0)
+                        compl = isinstance(a0, dict) and a0.get("k") == "Un" and a0.get("op") == "~" and show(unwrap_all_casts(a0["e"])) == show(h0)
+                        ht = (hfn["params"][0]["t"] or "").replace("const ", "")
+                        if ht in TYPE_BITS and (same or compl):
+                            bits = TYPE_BITS[ht]
+                            lo, hi = ((-(1 << (bits - 1)), (1 << (bits - 1)) - 1) if ht in SIGNED else (0, (1 << bits) - 1))
+                            pk = "p:%s" % f["params"][0]["n"] if f.get("params") else None
+                            if any(cj == ("cmp", "<", pk, "0") for cj in conjuncts(g)):
+                                hi = -1
+                            elif any(cj in (("cmp", "<=", "0", pk),) for cj in conjuncts(g)):
+                                lo = max(lo, 0)
+                            badpts = []
+                            for v in head_fn_points(hfn, lo, hi):
+                                hv = head_fn_value(hfn, v, facts)
+                                wanted = need_bytes((~v) if compl else v) if ((~v) if compl else v) >= 0 else None
+                                if hv is None or wanted is None:
+                                    verdict = None
+                                    badpts = None
+                                    break
+                                if hv < wanted:
+                                    badpts.append((v, hv, wanted))
+                            if badpts is not None:
+                                verdict = not badpts
+                                msg = ("value-dependent flush threshold %s(%s) is at least the head size for every value of this branch" % (hfn["qn"].split("::")[-1], show(harg))) if verdict else \
+                                    "flush threshold %s(%s) reserves %d byte(s) for %s = %d but write_int(%s) needs %d: near the end of the buffer write_int refuses and the item is silently dropped" % (
+                                        hfn["qn"].split("::")[-1], show(harg), badpts[0][1], show(harg), badpts[0][0], show(c["args"][0]), badpts[0][2])
+                    if verdict is None and not msg:
+                        msg = "value-dependent flush threshold in a form the rule does not understand"
+                    run.ob("R06.2", key, verdict, f, c["l"], msg)
+                else:
+                  run.ob("R06.2", key, K >= need, f, c["l"],
                        "flush threshold %d >= worst-case head %d (%s)" % (K, need, why) if K >= need else
                        "flush threshold is %d but %s can need a %d-byte head: write_int refuses and the item is silently dropped near the buffer end"
                        % (K, why, need))
@@ -509,6 +591,7 @@ def check_write_string(run):
         return
     seq = []
     src = None
+    counters = []
     for s in ir.stmts(lp["body"]):
         u = unwrap(s)
         if u.get("k") == "Call" and callee_name(u) == "memcpy":
@@ -517,14 +600,24 @@ def check_write_string(run):
             seq.append(("memcpy", is_member(ir.unwrap_all_casts(a[0]), "m_p") and is_member(a[2], "m_avail")))
         elif u.get("k") == "Bin" and u.get("op") == "-=":
             seq.append(("left-=", ir.path_str(path(u["lhs"]) or ()) == left and is_member(u["rhs"], "m_avail")))
-        elif u.get("k") == "Bin" and u.get("op") == "+=":
+        elif u.get("k") == "Bin" and u.get("op") == "+=" and (src is None or path(u["lhs"]) == src or (unwrap(u["lhs"]) or {}).get("t", "").endswith("*")):
             seq.append(("src+=", path(u["lhs"]) == src and is_member(u["rhs"], "m_avail")))
         elif u.get("k") == "MCall" and callee_name(u) == "update_buffer":
             seq.append(("update", is_member(u["args"][0], "m_avail")))
         elif u.get("k") == "MCall" and callee_name(u) == "flush_buffer":
             seq.append(("flush", True))
+        elif u.get("k") == "Bin" and u.get("op") == "+=" and path(u["lhs"]) and path(u["lhs"])[0].startswith("l:") and \
+                ir.path_str(path(u["lhs"])) != left and path(u["lhs"]) != src and is_member(u["rhs"], "m_avail"):
+            # a byte counter `count += m_avail`: correct only while m_avail still holds the size of this round's copy
+            stale = "update" in [x[0] for x in seq]
+            counters.append((u, not stale))
         else:
             seq.append(("other:%s" % show(u), False))
+    for u_, okc in counters:
+        run.ob("R06.5", "write_string:round-counter", okc, f, u_.get("l", 0),
+               "the round's byte count is taken before the buffer bookkeeping changes m_avail" if okc else
+               "`%s` runs after update_buffer(m_avail) has already set m_avail to 0: the bytes copied in every round that fills the buffer "
+               "are not counted, so the string's reported size is too small whenever it crosses a buffer boundary" % show(u_))
     names = [x[0] for x in seq]
     good_orders = (["memcpy", "left-=", "src+=", "update", "flush"], ["memcpy", "src+=", "left-=", "update", "flush"])
     ok = names in good_orders and all(x[1] for x in seq)
@@ -540,6 +633,10 @@ def check_write_string(run):
             tail.append(("memcpy", is_member(ir.unwrap_all_casts(a[0]), "m_p") and path(ir.unwrap_all_casts(a[1])) == src and ir.path_str(path(a[2]) or ()) == left))
         elif u.get("k") == "MCall" and callee_name(u) == "update_buffer":
             tail.append(("update", ir.path_str(path(u["args"][0]) or ()) == left))
+        elif u.get("k") == "Bin" and u.get("op") == "+=" and path(u["lhs"]) and path(u["lhs"])[0].startswith("l:") and ir.path_str(path(u["rhs"]) or ()) == left:
+            continue      # byte counter += remaining
+        elif u.get("k") == "Return":
+            continue
         else:
             tail.append(("other", False))
     ok = [t[0] for t in tail] == ["memcpy", "update"] and all(t[1] for t in tail)
@@ -596,9 +693,56 @@ def check_primitive_returns(run, rule):
     run.floor(rule, 18, "primitive returns")
 
 
+def check_always_emits(run, rule):
+    """R06.8 every size_t-returning encoder function stores its item on every path: a return before the first store/
+    delegate call is allowed only for the null-pointer refusal and for `no space even after flushing`."""
+    facts = run.facts
+    n = 0
+    for f in enc_fns(facts):
+        nm = f["qn"].split("::")[-1]
+        if f.get("ret") != "unsigned long" or nm == "write_int":
+            continue
+        env = Env(f["body"])
+        order = {id(x): i for i, x in enumerate(ir.walk(f["body"]))}
+        emits = [order[id(x)] for x in ir.walk(f["body"]) if (x.get("k") == "Bin" and store_through_mp(x)) or
+                 (x.get("k") in ("MCall", "Call") and (x.get("callee") or {}).get("cls") == ENC and (callee_name(x) or "").startswith("write"))]
+        first = min(emits) if emits else None
+        for st, g, loops in ir.guarded_statements(f["body"], env):
+            if st.get("k") != "Return":
+                continue
+            if first is not None and order[id(st)] > first:
+                continue
+            if first is not None and any(order[id(x)] == first for x in ir.walk(st)):
+                continue      # `return write_xxx(...)`
+            n += 1
+            extra = []
+            for a in conjuncts(g):
+                if a[0] == "not" and a[1][0] == "nz" and str(a[1][1]).startswith("p:") and "*" in (next((p_["t"] for p_ in f["params"] if "p:" + p_["n"] == a[1][1]), "")):
+                    continue      # null pointer refusal
+                if a[0] == "cmp" and a[1] == "<" and a[2] == "this.m_avail" and a[3].isdigit():
+                    continue      # no space even after flush_buffer()
+                if a[0] == "cmp" and a[1] == "<=" and a[3] == "this.m_avail":
+                    continue
+                extra.append(a)
+            fname = "%s(%s)" % (nm, ",".join(f["sig"]))
+            run.ob(rule, "%s:return-before-emission@%s" % (fname, show_f(g)[:60]), not extra, f, st.get("l", 0),
+                   "refusal path only for a null pointer / no buffer space" if not extra else
+                   "%s returns without emitting anything when %s: every caller has already counted this item (map key written, array "
+                   "element counted), so the enclosing container is mis-framed" % (fname, " && ".join(show_f(a) for a in extra)))
+    run.floor(rule, 4, "refusal paths of the encoder primitives")
+
+
 def check(run):
     check_write_int(run)
     check_public_writes(run)
     check_buffer_discipline(run)
     check_write_string(run)
     check_primitive_returns(run, "R06.6")
+    check_always_emits(run, "R06.8")
+    from .. import ranges
+    for f in enc_fns(run.facts):
+        seen = {}
+        for node, ok, txt in ranges.check_function(f, run.facts.enums):
+            base = "%s:%s" % (f["qn"].split("::")[-1], show(node)[:50])
+            seen[base] = seen.get(base, 0) + 1
+            run.ob("R06.7", base if seen[base] == 1 else "%s#%d" % (base, seen[base]), ok, f, node.get("l", 0), txt)
